@@ -9,8 +9,9 @@
     dump <i>                             -> Repr of the normalised state
     spec <i> <op> <args…>                -> <digest-after> <result>     oracle: Spec.run, instance untouched
     specdump <i> <op> <args…>            -> Repr of the state the oracle expects
-    model <i> <variant> <op> <args…>     -> <digest-after> <result> | <error tag>    Model.Api, instance untouched;
+    model <i> <variant> <op> <args…>     -> <digest-after> <result | error tag>      Model.Api, instance untouched;
                                             variant: letters l (LED decode as shipped), p (port state as shipped) or -
+    modelreq <variant> <op> <args…>      -> <netfn> <lun> <cmd> <hex> | <error tag>  the request the model puts on the wire
     ops                                  -> names of the operations that have a model
 -/
 import PyIpmi.Base.Proto
@@ -440,9 +441,16 @@ def step (st : Insts) (line : String) : Insts × String :=
     match (pNat i).bind (st[·]?), parseCall op args with
     | some s, some c =>
       match PyIpmi.Model.Api.runModelV (variant.contains 'l') (variant.contains 'p') c s with
-      | .ok (s', r) => (st, digest s' ++ " " ++ showResult r)
-      | e => (st, e.tag)
+      | (s', .ok r) => (st, digest s' ++ " " ++ showResult r)
+      | (s', e) => (st, digest s' ++ " " ++ e.tag)
     | _, _ => (st, "bad-op")
+  | "modelreq" :: variant :: op :: args =>
+    match parseCall op args with
+    | some c =>
+      match (PyIpmi.Model.Api.opOfV (variant.contains 'l') (variant.contains 'p') c).request with
+      | .ok r => (st, s!"{r.netfn} {r.lun} {r.cmd} {toHex r.data}")
+      | e => (st, e.tag)
+    | none => (st, "bad-op")
   | _ => (st, "bad-op")
 
 def main : IO Unit := do
